@@ -88,20 +88,21 @@ Theorem C15_admission_is_wf_loop : forall r,
 Proof. exact rduration_repDuration. Qed.
 
 (** $Number$ tables are contiguous by construction, for every list of file observations
-    (missing, undecodable, gaps or overlaps between the files, any start/end number), as long as
-    the uint32 segment number does not wrap (when it wraps the loader reports an error). *)
+    (missing, undecodable, gaps or overlaps between the files), every start and end number - also
+    when the uint32 segment number wraps (the loader then reports an error or keeps the table built
+    before the wrap). *)
 Theorem C15_contiguous_number : forall thumb files sn en dsd segs dsd',
-  0 <= match sn with Some n => n | None => 1 end ->
-  match sn with Some n => n | None => 1 end + lenZ files <= two32 ->
+  0 <= match sn with Some n => n | None => 1 end < two32 ->
+  lenZ files < two32 ->
   load_number thumb files sn en dsd = Ok (segs, dsd') -> contiguous (map tseg segs).
-Proof. exact load_number_contig. Qed.
+Proof. exact load_number_contig_all. Qed.
 
 (** ... hence the served table of every scanned $Number$ representation, and of every one loaded
     from the file written for it. *)
 Theorem C15_contiguous_number_served : forall m r r',
   scan_rep m = Ok r -> rep_sim r' r -> m_timeline m = None ->
-  0 <= match m_startnr m with Some n => n | None => 1 end ->
-  match m_startnr m with Some n => n | None => 1 end + lenZ (m_files m) <= two32 ->
+  0 <= match m_startnr m with Some n => n | None => 1 end < two32 ->
+  lenZ (m_files m) < two32 ->
   contiguous (segs (trep r')).
 Proof. exact cached_rep_number_contig. Qed.
 
